@@ -93,7 +93,7 @@ def check(rep):
                 if np.any(~np.isfinite(pm)) or np.any(pm < 0):
                     bad = ks[(~np.isfinite(pm)) | (pm < 0)][:3]
                     rep.fail("oracle", f"{t}: mass function is negative or not finite at {bad.tolist()}", ident, expected="finite, >= 0", observed=pm[(~np.isfinite(pm)) | (pm < 0)][:3].tolist(),
-                             tags={"schulz_zimm_density_as_pmf"} if fam == "schulz_zimm" and bad.tolist() == [0] else set())
+                             tags={"schulz_zimm_density_as_pmf"} if fam == "schulz_zimm" and bad.tolist() == [0] and args[0] > 2 * args[1] else set())   # z < 1 only: M**(z-1) at M = 0
                     continue
                 tot = float(pm.sum())
                 totals[t] = tot
